@@ -62,6 +62,10 @@ def run(ctx):
             bits = range(nbits)
         else:
             bits = sorted(rng.sample(range(nbits), min(nbits, 300 if not thorough else 1500)))
+        # every single-bit flip of the request URL as stored in the file (b2/b3: 2-byte length at offset 8, URL after it; b1: inside the CBOR map)
+        ub = f.find(b'https://example.com/')
+        if ub >= 0:
+            bits = sorted(set(bits) | set(range(ub * 8, (ub + 20) * 8)))
         for b in bits:
             t = bytearray(f); t[b // 8] ^= 1 << (b % 8)
             mutants.append((hexs(bytes(t)), k))
@@ -76,9 +80,12 @@ def run(ctx):
         mutants.append((hexs(f + b'extra'), k))
     g, m = read_stage(ctx, [f for f, k in mutants])
     items = []
+    urlflip_idx = set()
+    honest_urls = {hexs(b'https://example.com/')}
     for (f, k), gr in zip(mutants, g):
         e = parse_ex(gr) if gr else None
         if e:
+            if e[1] not in honest_urls: urlflip_idx.add(len(items))      # the URL read back differs from the signed one: always kept
             items.append((e, t_ok, {certurl: k['chain']}))
     items_file_marker = list(items)
     # --- in-memory field edits of honest exchanges
@@ -96,6 +103,10 @@ def run(ctx):
                 e[key if isinstance(key, int) else int(key)] = val
             variants.append(e)
         e = list(e0); e[1] = hexs(b'https://example.com/other'); variants.append(e)
+        # the same resource spelled differently (what a parse / re-serialise step would identify with the signed URL), and near misses
+        for u2 in (b'https://example.com/#', b'https://example.com/#frag', b'HTTPS://example.com/', b'Https://example.com/', b'https://EXAMPLE.com/', b'https://example.com:443/', b'https://example.com',
+                   b'https://example.com/?', b'https://example.com//', b'https://example.com/.', b'https://example.com/%2F', b'https://example.com./', b'https://example.com/ ', b'http://example.com/'):
+            e = list(e0); e[1] = hexs(u2); variants.append(e)
         e = list(e0); e[2] = hexs(b'HEAD'); variants.append(e)
         e = list(e0); e[4] = '404'; variants.append(e)
         e = list(e0); e[7] = hexs(unhex(e0[7]) + b'x'); variants.append(e)
@@ -173,7 +184,8 @@ def run(ctx):
         # keep every in-memory variant; sample the file-level mutants, but never below 3000 of them (the in-memory set grows with the
         # number of keys; a budget that is only "what is left" once silently dropped every file-level mutant)
         nfile = sum(1 for _ in items_file_marker)
-        keep = set(rng.sample(range(nfile), min(nfile, max(3000, 9000 - (len(items) - nfile)))))
+        urlflips = [i for i, it in enumerate(items[:nfile]) if i in urlflip_idx]
+        keep = set(rng.sample(range(nfile), min(nfile, max(3000, 9000 - (len(items) - nfile))))) | set(urlflips)
         remap, out = {}, []
         for i, it in enumerate(items):
             if i >= nfile or i in keep:
